@@ -47,6 +47,7 @@ type c11Obs struct {
 	Elapsed   int64  `json:"elapsed"`
 	Alive     int    `json:"alive"`
 	InitAlive bool   `json:"init_alive"`
+	Follow    string `json:"follow"` // container, not destroyed: the next cancelled Execve on the same environment ("" = not applicable)
 	Setup     string `json:"setup,omitempty"`
 }
 
@@ -138,6 +139,10 @@ func c11Main(args []string) error {
 func progArgs(path, nonce, prog string) []string {
 	if prog == "quick" {
 		return []string{path, nonce, "sleep:12", "exit:7"}
+	}
+	if prog == "tree" {
+		// descendants that ignore signals and leave the program's session / process group
+		return []string{path, nonce, "tree:sil()gil()il()", "sleep:60000"}
 	}
 	return []string{path, nonce, "sleep:60000"}
 }
@@ -311,6 +316,32 @@ func c11One(probe, root string, c c11Case) c11Obs {
 	o.R, o.Status, o.Code, o.Err = r.R, r.Status, r.Code, trimErr(r.Err)
 	// what is left of the program (grace: the kill is asynchronous for descendants)
 	o.Alive = waitGone(nonce, 3*time.Second)
+	if sess != nil && !c.Destroy && r.R != "hang" && (c.Prog == "sleep" || c.Prog == "tree" || c.Prog == "quick") {
+		// the environment is reused: the next run, cancelled too, must come back as well
+		ctx2, cancel2 := context.WithCancel(context.Background())
+		t2 := time.AfterFunc(60*time.Millisecond, cancel2)
+		ch2 := make(chan opResult, 1)
+		nonce2 := nonce + "b"
+		go func() {
+			ch2 <- classify(sess.env.Execve(ctx2, container.ExecveParam{
+				Args: progArgs("/probe/cprobe", nonce2, "sleep"), Env: []string{"PATH=/usr/bin:/bin"}, Files: manyFiles(3),
+				SyncAfterExec: c.Runner == "container-sa"}))
+		}()
+		select {
+		case r2 := <-ch2:
+			o.Follow = r2.R
+			if r2.R == "verdict" {
+				o.Follow = fmt.Sprintf("verdict:%d", r2.Status)
+			}
+		case <-time.After(15 * time.Second):
+			o.Follow = "hang"
+		}
+		t2.Stop()
+		cancel2()
+		for _, p := range scanNonce(nonce2) {
+			syscall.Kill(p, syscall.SIGKILL)
+		}
+	}
 	if sess != nil {
 		if c.Destroy {
 			time.Sleep(50 * time.Millisecond)
